@@ -32,6 +32,13 @@ def gen_chunks(rng, size, maxreq):
             off = size + rng.randrange(0, 3 * maxreq + 2)          # beyond EOF
         elif kind < 0.3:
             off = max(0, size - rng.randrange(0, maxreq + 1))      # straddles EOF
+        elif kind < 0.38:
+            # begins inside one request of an earlier prefetch (requests are maxreq long) and ends beyond it
+            j = rng.randrange(1, max(2, size // max(1, maxreq) + 1))
+            d = rng.randrange(1, min(maxreq, 200) + 1)
+            off = max(0, j * maxreq - d)
+            out.append((off, d + rng.randrange(1, min(maxreq, 200) + 1)))
+            continue
         elif kind < 0.45 and out:
             o, l = rng.choice(out)                                   # overlaps an earlier chunk
             off = o + rng.randrange(0, l + 1)
@@ -116,6 +123,7 @@ def threaded_case(ctx, rng, size, thorough):
     try:
         sess.fs.files["/f"] = bytearray(data)
         f = sess.client.open("/f", "rb", bufsize=rng.choice([-1, -1, 0, 1, 4096, 100000]))
+        f._prefetch_lock = L.OwnerLock()
         cap = rng.choice([None, None, 1, 2, 3, 5, 8])
         kind = rng.choice(["prefetch-seq", "prefetch-seeks", "readv", "readv-then-read", "prefetch-readv"])
         desc.update(kind=kind, cap=cap)
@@ -153,6 +161,9 @@ def threaded_case(ctx, rng, size, thorough):
             do_reads(rng.randrange(0, 3))
         desc["plan"] = [list(p) if p[0] != "readv" else ["readv", [list(c) for c in p[1]], p[2]] for p in plan]
 
+        if size > M + 300 and rng.random() < 0.3:
+            # unanswered prefetch requests, then a readv block that begins inside one and ends beyond it
+            plan[:] = [("prefetch", None, cap), ("readv", [(M - 100, 200), (2 * M - 1, 2)], None)] + plan
         if rng.random() < 0.4:
             # read or readline first (read-ahead in _rbuffer), then a readv whose blocks start at / around _realpos
             k = rng.randrange(0, len(plan) + 1)
@@ -183,6 +194,8 @@ def threaded_case(ctx, rng, size, thorough):
         r = sess.call(prog)
         if r[0] == "hang":
             return desc, ("read-hangs", "the call can never return: reader waits for a response, nothing in flight")
+        if r[0] == "exc" and isinstance(r[1], L.Hang):
+            return desc, ("self-deadlock:_prefetch_lock", str(r[1]))
         if r[0] == "exc":
             return desc, ("read-raises:" + L.exc_kind(r[1]), repr(r[1]))
         for kind_, a1, a2, got in r[1]:
@@ -224,8 +237,8 @@ def run(ctx):
     ctx.write_generated("C28", lib_sftpgen.c28_generated_source())
     ctx.build()
     rng = ctx.rng
-    n_lock = 10000 if ctx.thorough else 1600
-    n_thr = 2500 if ctx.thorough else 320
+    n_lock = 10000 if ctx.thorough else 1200
+    n_thr = 2500 if ctx.thorough else 220
 
     # ---------------- lockstep correspondence + oracle
     reqs, checks = [], []  # checks: (line index, kind, expected, case id)
@@ -262,6 +275,9 @@ def run(ctx):
             ops = ops[:k] + [("read", rng.choice([1, 3, maxreq, rng.randrange(1, 60)])),
                              ("readv_rp", [(rng.choice([0, 0, 1, 7]), rng.randrange(1, 40)) for _ in range(rng.randrange(1, 4))],
                               rng.choice([None, 1, 2]))] + ops[k:]
+        if ci == 6:  # designed: unanswered prefetch requests, then a readv block that starts inside one and ends beyond it
+            size, maxreq, seed, bias, faults, bufsize = 200, 64, None, "threads", None, -1
+            ops = [("prefetch", 200, None), ("readv", [(54, 20)], None)]
         if ci == 5:  # designed: buffered file, read-ahead, then a readv block that starts where the read-ahead ended
             size, maxreq, seed, bias, faults, bufsize = 300, 32768, None, "random", None, 100
             ops = [("prefetch", 300, None), ("readv", [(0, 50), (100, 50)], None)]
@@ -295,6 +311,8 @@ def run(ctx):
         elif res["hang"]:
             ctx.fail("read-hangs", case, "deterministic schedule reaches a state where the reader waits and no task is "
                      "enabled; trace tail: %s" % trace[-12:])
+        elif isinstance(res["exc"], L.Hang):
+            ctx.fail("self-deadlock:_prefetch_lock", case, str(res["exc"]))
         elif res["exc"] is not None:
             ctx.fail("read-raises:" + L.exc_kind(res["exc"]), case, repr(res["exc"]))
         else:
@@ -378,7 +396,8 @@ META = {
               "the number of a request still in flight (request_numbers_unique); a blocked reader — waiting for a "
               "response, or spinning in _async_response because the answer arrived before the thread registered the "
               "extent — always has an enabled peer (waiting_reader_not_stuck) and the peers' steps are bounded by a "
-              "measure (bounded_wait). BufferedFile's read-ahead is part of the model (_pos, _rbuffer, buffered modes): "
+              "measure (bounded_wait); the plain _prefetch_lock is never re-acquired by its holder "
+              "(prefetch_lock_never_reentered, AST). BufferedFile's read-ahead is part of the model (_pos, _rbuffer, buffered modes): "
               "read_ahead_consistent; a readv block is seek+read, starts at its own offset whatever was buffered and "
               "keeps it until it completes (readv_block_starts_at_its_offset, running_read_keeps_its_start). cap = 0 is outside the property's range: the code's test never passes, the model "
               "starves the same way (cap_zero_starves_witness) and the lockstep run replays it. Tied to "
